@@ -35,7 +35,7 @@ def bounds(tier):
     return {'specifiers_per_set': 'simplify: 0..3 quick / 0..4 thorough; merge and conflicts: 0..2 '
                                   'quick / 0..3 thorough (exact count per obligation; counts >= 3 '
                                   'partitioned by the first specifier)',
-            'version_points': 3, 'probe_points': 7, 'pc_field_option_length': '0..2 quick / 0..3 thorough, all Unicode minus the run-time established unrepresentable set %r' % pc_probe(), 'operators': ['==', '!=', '>', '>=', '<', '<=']}
+            'version_points': 3, 'probe_points': 7, 'pc_field_option_length': '0..1 quick / 0..3 thorough, all Unicode minus the run-time established unrepresentable set %r' % pc_probe(), 'operators': ['==', '!=', '>', '>=', '<', '<=']}
 
 
 def obligations(tier, kf):
@@ -57,8 +57,8 @@ def obligations(tier, kf):
     obs.append(Ob('m_merge', {'K': 3, 'F': 1, 'G': -1}, 600).mutant('simplify_ignores_ne'))
     obs.append(Ob('s_simplify', {'K': 2, 'F': -1, 'G': -1}, 300).mutant('simplify_max_for_lt'))
     excl = pc_probe()
-    for n in range(0, (2 if quick else 3) + 1):
-        obs.append(Ob('q_define', dict(kf, N=n, K=1, pc_excl=excl), {0: 60, 1: 120, 2: 400, 3: 2000}[n],
+    for n in range(0, (1 if quick else 3) + 1):
+        obs.append(Ob('q_define', dict(kf, N=n, K=1, pc_excl=excl), {0: 60, 1: 200, 2: 1200, 3: 5000}[n],
                       desc='Cflags field quoting, |s|==%d' % n))
     obs.append(Ob('q_define', dict(kf, N=1, K=1, pc_excl=excl), 120).twin())
     obs.append(Ob('q_define', dict(kf, N=1, K=1, pc_excl=excl), 300).mutant('pc_no_hash_escape'))
